@@ -27,7 +27,7 @@ WEIGHTS = dict(ins=7, data=4, label=5, block=2, scope=1.2, macro=1, call=2.5, fo
 
 
 def plan(tier: str, seed: int) -> list[dict]:
-    n, per = (16, 95) if tier == "quick" else (64, 630)
+    n, per = (32, 120) if tier == "quick" else (64, 630)
     return [{"seed": seed * 100_000 + i, "n": per} for i in range(n)]
 
 
